@@ -249,7 +249,7 @@ def run(ctx: core.Ctx):
         # (among the subnormal numbers x * y keeps a few bits only: the computed centroid is too coarse for the relation)
         if i % 4 and 1 not in tsel and not feq(c2, v1["Centroid"] + c, 1e-6 * max(1.0, abs(lo), abs(hi)) / 1.0) and not (math.isnan(c2) and math.isnan(v1["Centroid"])):
             ctx.violation("relations/Centroid/translation", dict(case, shift=c), v1["Centroid"] + c, c2)
-    ctx.exhaustive = True
+    ctx.exhaustive = not ctx.quick      # the quick tier replays a stride of the enumerated cases (TLC checks all of them on the model)
     ctx.rule = (f"TLC enumerates sets of 0..{ml} activated terms over 5 terms x 4 degrees x 3 implications x 3 aggregations x 4 resolutions (replayed to 2 terms"
                 f"{', every third in the quick tier' if ctx.quick else ''}) and evaluates seeded cases (4 ranges, 5 implications, 5 aggregations, resolutions to 16, up to 4 terms); "
                 "each replayed case goes through the three links for all 5 defuzzifiers; batches; large resolutions / arbitrary ranges / tiny degrees through "
